@@ -1160,3 +1160,56 @@ Proof.
 Qed.
 
 End Consequences.
+
+(* ------------------------------------------------------------------ *)
+(* Part 6.  Why the ranking matters: a counter-model                    *)
+(* ------------------------------------------------------------------ *)
+(* a graph given in the wire format of the correspondence check, and its run *)
+Definition graph_of (w : wire) : list ncfg * list fkind :=
+  let ns := parse_fnodes w in (map fst ns, map snd ns).
+
+Definition run_of (w : wire) : xst * list xst :=
+  let '(cfgs, kinds) := graph_of w in
+  let '(s, e) := window w in
+  let fuel := (Z.to_nat (e - s) + 1)%nat in
+  (fsim cfgs kinds (script_beh w) s e fuel,
+   fstates cfgs kinds (script_beh w) e fuel (fstart cfgs kinds (script_beh w) s)).
+
+(* producer 0 writes 10, 20, 30 at 1, 2, 3; the sink is node 1, the source node 2: ranked AFTER its sink *)
+Definition cm_case : wire :=
+  [[1;1;8]; [2;0;1;0;1;0;0]; [5;1;0;2]; [4;2;0;0];
+   [3;0;-1;1;0;0]; [3;0;0;6;10;0]; [3;0;0;1;1;0]; [3;0;1;6;20;0]; [3;0;1;1;1;0]; [3;0;2;6;30;0]].
+
+Lemma source_after_sink_loses :
+  let '(cfgs, kinds) := graph_of cm_case in
+  let '(x, sts) := run_of cm_case in
+  kind_at kinds 1 = FSink /\ EngineFacts.cfg cfgs 1 = sink_cfg 0 2 /\ kind_at kinds 2 = FSource None /\
+  g_err (f_g x) = 0 /\
+  ticks_of 0 sts = [(1, 10); (2, 20); (3, 30)] /\
+  ticks_of 2 sts = [(4, 30)].
+Proof. vm_compute. split; [reflexivity|]. split; [reflexivity|]. split; [reflexivity|]. split; [reflexivity|]. split; reflexivity. Qed.
+
+Lemma needs_source_before_sink_refuted_l :
+  exists cfgs kinds beh k p s start end_ fuel,
+    kind_at kinds k = FSink /\ EngineFacts.cfg cfgs k = sink_cfg p s /\ kind_at kinds s = FSource None /\
+    (p < k)%nat /\ (k < s)%nat /\ MIN_DT < start /\ end_ <= MAX_DT /\
+    g_err (f_g (fsim cfgs kinds beh start end_ fuel)) = 0 /\
+    let sts := fstates cfgs kinds beh end_ fuel (fstart cfgs kinds beh start) in
+    ticks_of s sts <> map shift (filter (deliverable end_) (ticks_of p sts)).
+Proof.
+  exists (fst (graph_of cm_case)), (snd (graph_of cm_case)), (script_beh cm_case), 1%nat, 0%nat, 2%nat, 1, 8, 8%nat.
+  split; [vm_compute; reflexivity|]. split; [vm_compute; reflexivity|]. split; [vm_compute; reflexivity|].
+  split; [lia|]. split; [lia|]. split; [vm_compute; reflexivity|]. split; [vm_compute; intros H; discriminate|].
+  split; [vm_compute; reflexivity|].
+  vm_compute. intros H. discriminate.
+Qed.
+
+(* evaluating a sink never touches any node's output: the value it captures becomes
+   visible only through the source's own evaluation, in a later cycle *)
+Lemma eval_sink_nodes cfgs i x : g_nodes (f_g (eval_sink cfgs i x)) = g_nodes (f_g x).
+Proof.
+  unfold eval_sink. cbn zeta.
+  destruct (negb (n_started (node_at i (f_g x)))); simpl; auto.
+  destruct (ready (nth i cfgs dflt_cfg) (f_g x)); simpl; auto.
+  destruct (schedule_node_spec (sink_src (nth i cfgs dflt_cfg)) (g_now (f_g x) + MIN_TD) (f_g x)) as (_ & N & _). exact N.
+Qed.
